@@ -9,10 +9,6 @@ def Int.fronting : Int → Bool
   | .wos | .was | .tag => false
   | _ => true
 
-def Int.isPPq : Int → Bool
-  | .woi | .wai | .whe | .whn => true
-  | _ => false
-
 theorem questioned_eq (ty : Typ) (i : Int) (h : ty.int = some i) : ty.questioned = i.fronting := by
   unfold Typ.questioned; rw [h]; cases i <;> rfl
 
